@@ -6,7 +6,7 @@ from .. import catalogue as K
 from .. import tys as T
 from .. import speccheck as S
 
-THEOREMS = ["c07_pairing", "c07_variant_scope", "c07_effective_key", "c07_field_filled_from_own_key", "c07_own_member_result"]
+THEOREMS = ["c07_pairing", "c07_variant_scope", "c07_effective_key", "c07_field_filled_from_own_key", "c07_own_member_result", "c07_member_fills_first_claimant", "c07_claimed_key_fills"]
 
 
 def plausible_keys(it):
